@@ -156,6 +156,11 @@ func slug(s string) string {
 //	VERIF_PROP, VERIF_TIER, VERIF_SEED, VERIF_RUN_FROM, VERIF_RUN_COUNT, VERIF_BUDGET_S, VERIF_REPLAY_DIR
 //	VERIF_REPLAY=<file>  : replay mode; exit status 1 when the violation reproduces, 0 when not
 //	VERIF_DUMP=1         : print the rendered case of every run (debugging)
+//
+// Tick tells the watchdog that the worker is making progress; families that execute several programs within one
+// run (fault enumeration) call it between executions. Set by WorkerMain.
+var Tick = func() {}
+
 func WorkerMain(t *testing.T, engine, family string, c Case) {
 	sanitiseEnv()
 	prop := Cfg("VERIF_PROP")
@@ -184,6 +189,7 @@ func WorkerMain(t *testing.T, engine, family string, c Case) {
 		default:
 		}
 	}
+	Tick = tick
 
 	if path := Cfg("VERIF_REPLAY"); path != "" {
 		b, err := os.ReadFile(path)
